@@ -20,6 +20,7 @@ import NemoVerif.Lemmas.GroupCoreVMPick
 import NemoVerif.Lemmas.GroupCoreVMLoop
 import NemoVerif.Lemmas.GroupCoreVMRun
 import NemoVerif.Lemmas.GroupCoreVMStart
+import NemoVerif.Lemmas.GroupCoreVMOrRun
 namespace NemoVerif.C07
 open NemoVerif NemoVerif.Dnf NemoVerif.GroupExpand NemoVerif.GroupVM
 
@@ -481,6 +482,28 @@ theorem groupvm_is_corevm_partial_and_group (fuel : Nat) (s : CoreVM.VM) (f : Co
   refine ⟨s1, s2, s3, h1, h2, ?_⟩
   rw [h3]
   simp only [markers, normalize_clause_fixed, toDnf_ofDnf, Dnf.init]
+
+theorem dnfOr_atoms (c : List Nat) : dnfOr (c.map G.atom) = c.map fun a => [a] := by
+  induction c with
+  | nil => rfl
+  | cons a c ih => simp [dnfOr, dnf, ih]
+
+/-- **groupvm_is_corevm_partial (a pure or-group of single atoms of any size, every event sequence, EVERY tie-break).**  Between events
+    all branch heads wait on their `match` elements (`OrMergeInv` with `allSingle c`).  The slide-level driver (`CoreVM.orDriver`: advance
+    the branch heads that wait on the event, then the merging loop over those that became MERGING) outputs exactly
+    `markers (.or (c.map .atom)) es` — the first event that matches some atom completes the group, whatever `random.choice` returns
+    when several branches wait for the same event (the recorded outcomes only have to be present and in range). -/
+theorem groupvm_is_corevm_partial_or_run (fuel : Nat) (f : CoreIndex.FUid) (x : CoreVM.InstX) (cfg : CoreVM.FlowCfg) (l mu : String)
+    (pe fp : Nat) (r : CoreIndex.HUid) (us : List (CoreIndex.HUid × Nat)) (c : List Nat) (sc0 : List CoreVM.Score)
+    (hown : x.ctxOwner = none) (S : CoreVM.MembersShape cfg l pe us) (hlen : us.length = c.length)
+    (es : List Nat) (s : CoreVM.VM) (i : CoreIndex.Inst)
+    (I : CoreVM.OrMergeInv s f i x cfg l mu pe fp r us (CoreVM.allSingle c) sc0)
+    (hadq : ∀ n, n ≤ us.length → CoreVM.Adequate n s.r.choices) :
+    ∃ s', CoreVM.orDriver fuel f us (CoreVM.allSingle c) false es s = .ok (markers (.or (c.map .atom)) es) s' := by
+  obtain ⟨s', hs'⟩ := CoreVM.or_group_run fuel f x cfg l mu pe fp r us c sc0 hown S hlen es s i I hadq
+  refine ⟨s', ?_⟩
+  rw [hs']
+  simp only [markers, normalize_eq, toDnf_ofDnf, dnf, dnfOr_atoms, Dnf.init]
 
 /-! ## the expanded element list -/
 
@@ -986,5 +1009,23 @@ example (es : List Nat) :=
     { hl := rfl, hsize := by decide, hw := rfl, hm := rfl }
     (by intro lp hlp; simp at hlp; rcases hlp with rfl | rfl <;> exact ⟨rfl, by decide⟩)
     (by decide) rfl (by decide) es
+
+-- non-vacuity of `groupvm_is_corevm_partial_or_run`: `match E0() or E0()` (both branches wait for atom 0), ANY event sequence
+example (es : List Nat) :=
+  groupvm_is_corevm_partial_or_run 1 "m" exXFork exCfgOr "e" "u" 14 2 "h0" [("h1", 4), ("h2", 7)] [0, 0] [] rfl
+    (by intro u hu; simp at hu; rcases hu with rfl | rfl <;> exact ⟨rfl, by decide⟩) rfl es (exVMOr2 [0, 0]) exInst
+    { F := { hi := rfl, hx := rfl, hc := rfl }, C := { hl := rfl, hsize := by decide, hm := rfl }, hv := rfl, hlen := rfl,
+      hndu := by decide, hfu := rfl, hhx := rfl,
+      hleaf := by intro c hc; simp at hc; rcases hc with rfl | rfl <;> rfl,
+      hsc := by intro c hc; simp at hc; rcases hc with rfl | rfl <;> rfl,
+      hmu := by decide, hfp := by decide, hns := by decide }
+    (by
+      intro n hn
+      have : n ≤ 2 := hn
+      rcases n with _ | _ | _ | n
+      · trivial
+      · trivial
+      · exact ⟨by decide, Or.inl rfl⟩
+      · omega)
 
 end NemoVerif.C07
